@@ -12,11 +12,13 @@ TRUSTED = ['Lean 4.33 kernel (core only)', 'axioms ⊆ {propext, Quot.sound}',
 
 CENTRES = [(30., 45.), (0.012, 0.01)]     # the second field straddles RA = 0 / 360 and DEC = 0: a quarter of the events have RA ≈ 359.99, and cone centres with a coordinate exactly 0.0 occur
 RA0, DEC0 = CENTRES[0]
+T0S = [1000.]
 
 
 def set_centre(i):
     global RA0, DEC0
     RA0, DEC0 = CENTRES[i]
+    T0S[0] = [1000., 167000000.][i]
 
 
 def reg_text():
@@ -31,7 +33,11 @@ def build_file(g, d, n=160):
     """Synthetic level-2 file with a PHASE column; rows carry a tag in PHA/MC_PHA."""
     import evfile
     from astropy.io import fits
-    t = numpy.sort(g.choice(numpy.arange(1, 2 ** 14), n, replace=False)) / 2 ** 4 + 1000.
+    # the first field uses small times on a 1/16 s grid; the second one realistic mission times (1.67e8 s) on a 1/1024 s grid, i.e.
+    # bounds that need 15 significant digits to be written down
+    T0 = T0S[0]
+    t = numpy.sort(g.choice(numpy.arange(1, 2 ** 14), n, replace=False)) / 2 ** 4 + T0 if T0 < 1e6 else \
+        numpy.sort(g.choice(numpy.arange(1, 2 ** 20), n, replace=False)) / 2 ** 10 + T0
     pi = g.integers(20, 250, n)
     ra = RA0 + g.normal(0, 0.02, n) / numpy.cos(numpy.radians(DEC0))
     dec = DEC0 + g.normal(0, 0.02, n)
@@ -41,7 +47,7 @@ def build_file(g, d, n=160):
     path = os.path.join(d, 'sel.fits')
     evfile.write_event_file(path, t, pi=pi, phi=g.uniform(-3, 3, n), ra=ra, dec=dec, src=src, mc_energy=mce, tag=numpy.arange(1, n + 1),
                             mc_ra=ra + g.normal(0, 0.006, n) / numpy.cos(numpy.radians(DEC0)), mc_dec=dec + g.normal(0, 0.006, n),   # true positions differ from the measured ones (PSF)
-                            tstart=1000., tstop=1000. + 1024., ra0=RA0, dec0=DEC0)
+                            tstart=T0, tstop=T0 + 1024., ra0=RA0, dec0=DEC0)
     # PHASE column as xpphase writes it (format E)
     phase = (g.integers(0, 2 ** 10, n) / 2 ** 10).astype(numpy.float32)
     with fits.open(path) as h:
@@ -191,6 +197,9 @@ def boundary_cfgs(g, rows):
     return outl
 
 
+_ENTRY = [0]
+
+
 def impl_select(path, reg, kw, outname='out'):
     """Run the real xEventSelect.select(); returns ('ok', tags, mctags, outfile) or ('err', code)."""
     from ixpeobssim.bin.xpselect import PARSER
@@ -203,9 +212,16 @@ def impl_select(path, reg, kw, outname='out'):
 
     def _abort(msg=''):
         raise Abort(str(msg))
+    _ENTRY[0] += 1
     with mock.patch.object(subselect, 'abort', _abort):
         try:
-            o = subselect.xEventSelect(path, **kwargs).select()
+            if _ENTRY[0] % 3 == 1 and 'mcsrcid' not in kw:
+                # through the pipeline wrapper (keyword arguments turned into command-line switches and parsed again), as the example pipelines do
+                from ixpeobssim.core import pipeline
+                o = pipeline.xpselect(path, overwrite=True, suffix=outname, **{k: (reg if v == 'REG' else v) for k, v in kw.items()})
+                o = o[0] if isinstance(o, (list, tuple)) else o
+            else:
+                o = subselect.xEventSelect(path, **kwargs).select()
         except Abort as e:
             return ('err', classify(str(e)))
     with fits.open(o) as h:
